@@ -106,7 +106,7 @@ class OmegaAdapter(Adapter):
         w, kk = source_arrays(src, k, rng)
         data = np.array(w)
         world = {'src': src, 'dom': st['dom'], 'rank': st['rank'], 'domain': dom, 'k': k, 'k0': np.array(k), 'dk0': float(dom.dk), 'regridded': False, 'rng': rng, 'data': data, 'kdata': None if kk is None else np.array(kk),
-                 'stage': 'constructed', 'mutated': False, 'prism': None, 'caller': None, 'caller_k': None, 'init': st, 'hist': []}
+                 'stage': 'constructed', 'mutated': False, 'prism': None, 'sys': None, 'caller': None, 'caller_k': None, 'init': st, 'hist': []}
         if src['origin'] in ('array', 'arrayk'):
             # what callers hand over: arrays for most, a plain list now and then
             caller = np.array(w)
@@ -155,16 +155,20 @@ class OmegaAdapter(Adapter):
             w['stage'] = 'constructed'
             w['regridded'] = True
             w['prism'] = None
+            w['sys'] = None
             return {}
         if act == 'Calculate':
             k = np.array(w['k'])
+            # once a System holds the source, the object the user reaches is the System's (sys.omega[a, a])
+            obj = w['obj'] if w['sys'] is None else w['sys'].omega['A', 'A']
+            was = w['stage']
             try:
                 with np.errstate(all='ignore'):
-                    ret = w['obj'].calculate(k)
+                    ret = obj.calculate(k)
             except Exception as ex:     # the statement says "raises an error"; the class is not fixed
                 w['stage'] = 'rejected'
                 return {'ret': 'raises', '_class': type(ex).__name__}
-            w['stage'] = 'calculated'
+            w['stage'] = was if was in ('built', 'evaluated') else 'calculated'
             return {'ret': self.verbatim(w, ret), '_k_untouched': bool(np.array_equal(k, w['k']))}
         if act == 'Build':
             return self.build(w)
@@ -192,6 +196,8 @@ class OmegaAdapter(Adapter):
     def build(self, w):
         import pyPRISM
         T = ['A', 'B'][:w['rank']]
+        if w['sys'] is not None:
+            return self.create(w, w['sys'])         # the same System again (a sweep step)
         s = pyPRISM.System(T, kT=1.0)
         s.domain = copy.deepcopy(w['domain'])
         for i, t in enumerate(T):
@@ -203,6 +209,11 @@ class OmegaAdapter(Adapter):
         if w['rank'] == 2:
             s.omega['B', 'B'] = pyPRISM.omega.SingleSite()
         s.omega['A', 'A'] = w['obj']
+        w['sys'] = s
+        return self.create(w, s)
+
+    def create(self, w, s):
+        import pyPRISM
         try:
             with warnings.catch_warnings():
                 warnings.simplefilter('ignore')
